@@ -217,9 +217,9 @@ def main(ctx):
     K = max(len(f["kinds"]) for f in fams)
     hp = os.path.join(ctx.scratch, "hist.ndjson")
     if ctx.quick:
-        # every family: all PAIRS over its whole menu; instance types: all TRIPLES over the first 20 kinds of the menu
+        # every family: all PAIRS over its whole menu; instance types: all TRIPLES over the first 16 kinds of the menu
         # (the menus list the state-touching kinds first); everything: deep simulated histories over the whole menus
-        hs = gen_histories(ctx, K, 2) + gen_histories(ctx, 20, 3, "inst") + sim_histories(ctx, K, 400, 10)
+        hs = gen_histories(ctx, K, 2) + gen_histories(ctx, 16, 3, "inst") + sim_histories(ctx, K, 400, 10)
     else:
         # all triples over the whole menus, all quadruples over the first 16 kinds of every menu, deep simulated histories
         hs = gen_histories(ctx, K, 3) + gen_histories(ctx, 16, 4) + sim_histories(ctx, K, 3000, 12)
@@ -234,7 +234,7 @@ def main(ctx):
                        "reused instance per family; every call result (value, error class, line:column) compared by TLC with the "
                        "fresh-instance result, every returned value re-inspected after input scribbling and after every later "
                        "call. distinct_nontrivial = distinct (family, kind -> next kind) transitions executed."
-                       % ("all pairs over the whole menus, all triples over the first 20 kinds (instance types)," if ctx.quick else
+                       % ("all pairs over the whole menus, all triples over the first 16 kinds (instance types)," if ctx.quick else
                           "all triples over the whole menus, all quadruples over the first 16 kinds,", 10 if ctx.quick else 12))
     for f in fams[:3]:
         ctx.sample({"family": f["name"], "history": [k["name"] for k in f["kinds"][:3]]})
